@@ -585,3 +585,52 @@ def main(ctx):
                 bounds=dict(max_len=LR, value_alphabets={k: repr(v) for k, v in RV.items()},
                             flag_alphabets={k: repr(v) for k, v in RF.items()},
                             cross="every value kind x i8 flags; i8 values x every flag kind"))
+
+    # ------------------------------------------------------------ call sequences
+    # sequences of match/unique/rem_dup calls in one process, the SAME array objects passed again and again
+    # and edited in place by the caller between calls (mc/worlds.py call_sequences): sort indices cached by
+    # object identity, results that are views of a shared scratch buffer, memoised uniqueness checks
+    from mc.worlds import call_sequences
+
+    def make_pool():
+        return dict(a=np.array([5, 1, 3, 9, 7], dtype="i8"), b=np.array([3, 3, 9, 2, 5, 9], dtype="i8"),
+                    c=np.array([9, 4], dtype="i8"), f=np.array([0, 2, 1, 1, 0, 3], dtype="i8"),
+                    s=np.array([b"b", b"a", b"cc"]), t=np.array([b"cc", b"x", b"a", b"a"]))
+
+    SEQ_CALLS = [("match", "a", "b", False), ("match", "a", "c", False), ("match", "c", "b", False),
+                 ("match", "s", "t", False), ("match", "a", "b", True),
+                 ("unique", "b", False), ("unique", "a", False), ("unique", "t", False), ("unique", "b", True),
+                 ("rem_dup", "b", "f", False)]
+    SEQ_MUT = [("a", "reverse"), ("a", "sort"), ("a", "dup"), ("b", "roll"), ("f", "negate")]
+
+    def seq_run(call, pool):
+        if call[0] == "match":
+            return [np.asarray(v) for v in nu.match(pool[call[1]], pool[call[2]], presorted=call[3])]
+        if call[0] == "unique":
+            r = nu.unique(pool[call[1]], values=call[2])
+            return [np.asarray(v) for v in (r if isinstance(r, tuple) else (r,))]
+        r = nu.rem_dup(pool[call[1]], pool[call[2]], values=call[3])
+        return [np.asarray(v) for v in (r if isinstance(r, tuple) else (r,))]
+
+    def seq_mutate(m, pool):
+        x = pool[m[0]]
+        if m[1] == "reverse":
+            x[:] = x[::-1].copy()
+        elif m[1] == "sort":
+            x.sort()
+        elif m[1] == "dup":
+            x[0] = x[2]
+        elif m[1] == "roll":
+            x[:] = np.roll(x, 1)
+        elif m[1] == "negate":
+            x[:] = -x
+
+    def seq_enabled(hist, ev):
+        # match(presorted=True) is only legitimate while `a` is sorted: after the in-place sort and nothing else on a
+        if ev[0] == "c" and ev[1] == "match" and ev[4]:
+            ma = [e for e in hist if e[0] == "m" and e[1] == "a"]
+            return bool(ma) and ma[-1] == ("m", "a", "sort")
+        return True
+
+    call_sequences(ctx, "call-sequences", make_pool, SEQ_CALLS, seq_run, lambda: [nu], depth=ctx.pick(3, 4),
+                   mutations=SEQ_MUT, mutate=seq_mutate, enabled_after=seq_enabled, nodedup_depth=ctx.pick(3, 3))
